@@ -188,7 +188,7 @@ func c13AllowList(c *Ctx) (map[string]bool, *ssa.Function) {
 	if anchor == nil {
 		return nil, nil
 	}
-	v, _ := p.globalInitValue(pkgTransform, "allowedFuncNames")
+	v, _ := p.globalInitValue(pkgTransform, c13AllowListName(p))
 	if v == nil {
 		c.AnchorLost(pkgTransform + ".allowedFuncNames (package-level map literal)")
 		return nil, anchor
@@ -211,7 +211,7 @@ func c13AllowList(c *Ctx) (map[string]bool, *ssa.Function) {
 						m = x.Common().Args[0]
 					}
 				}
-				if m != nil && c13IsGlobalLoad(m, pkgTransform, "allowedFuncNames") {
+				if m != nil && c13IsGlobalLoad(m, pkgTransform, c13AllowListName(p)) {
 					c.Ob(fn, "allowedFuncNames-modified", in, "the allow-list is a literal").Fail("allow-list is modified at run time")
 				}
 			}
@@ -222,6 +222,53 @@ func c13AllowList(c *Ctx) (map[string]bool, *ssa.Function) {
 		out[k] = true
 	}
 	return out, anchor
+}
+
+// c13AllowListName resolves the current name of the allow-list variable semantically (a rename of
+// the package-level variable must not lose the anchor): the package-level map with string keys of
+// internal/transform that SprigFuncs (resolved with rename tracking) consults with a comma-ok lookup.
+// Falls back to the recorded name when that is not unique. Obligation keys keep the recorded label.
+func c13AllowListName(p *Program) string {
+	const recorded = "allowedFuncNames"
+	anchor := p.Func(pkgTransform, "SprigFuncs")
+	if anchor == nil {
+		return recorded
+	}
+	names := map[string]bool{}
+	var walk func(f *ssa.Function)
+	walk = func(f *ssa.Function) {
+		for _, b := range f.Blocks {
+			for _, in := range b.Instrs {
+				lk, ok := in.(*ssa.Lookup)
+				if !ok || !lk.CommaOk {
+					continue
+				}
+				u, ok := stripConv(lk.X).(*ssa.UnOp)
+				if !ok || u.Op != token.MUL {
+					continue
+				}
+				g, ok := u.X.(*ssa.Global)
+				if !ok || g.Pkg == nil || g.Pkg.Pkg.Path() != pkgTransform {
+					continue
+				}
+				if mt, isMap := g.Type().(*types.Pointer).Elem().Underlying().(*types.Map); isMap {
+					if bt, isB := mt.Key().Underlying().(*types.Basic); isB && bt.Info()&types.IsString != 0 {
+						names[g.Name()] = true
+					}
+				}
+			}
+		}
+		for _, af := range f.AnonFuncs {
+			walk(af)
+		}
+	}
+	walk(anchor)
+	if len(names) == 1 {
+		for n := range names {
+			return n
+		}
+	}
+	return recorded
 }
 
 func c13IsGlobalLoad(v ssa.Value, pkg, name string) bool {
@@ -427,7 +474,7 @@ func c13FuncMapValue(p *Program, g *ssa.Function, mu *ssa.MapUpdate) (kind, why 
 						if !isL || !lk.CommaOk {
 							continue
 						}
-						if c13IsGlobalLoad(lk.X, pkgTransform, "allowedFuncNames") && stripConv(lk.Index) == key {
+						if c13IsGlobalLoad(lk.X, pkgTransform, c13AllowListName(p)) && stripConv(lk.Index) == key {
 							return "sprig-guarded", "copy of " + calleeName(src.Common()) + "()[key] is dominated by `_, ok := allowedFuncNames[key]; ok`"
 						}
 					}
@@ -583,12 +630,107 @@ func c13r2deep(c *Ctx) {
 // ---------------------------------------------------------------------------------------------
 // R3 — conservation in phase collection
 
+// c13Coll: the functions of the phase collector of packagerender.
+type c13Coll struct{ addObjs, addOne, collect, newColl *ssa.Function }
+
+// c13Collector resolves the collector's functions. The recorded names are tried first (function
+// renames are tracked by the engine); when that fails — e.g. the unexported receiver type itself was
+// renamed — they are found by role: AddObjects is the method taking ...unstructured.Unstructured,
+// Collect the method of that name on the same receiver type, addObjects the method of that type
+// which AddObjects calls with ...ObjectSetObject, the constructor the function returning that type.
+// A role that cannot be filled uniquely is a lost anchor (fails loudly).
+func c13Collector(c *Ctx) c13Coll {
+	p := c.P
+	r := c13Coll{
+		addObjs: p.Func(pkgPkgRender, "(phaseCollector).AddObjects"),
+		addOne:  p.Func(pkgPkgRender, "(phaseCollector).addObjects"),
+		collect: p.Func(pkgPkgRender, "(phaseCollector).Collect"),
+		newColl: p.Func(pkgPkgRender, "newPhaseCollector"),
+	}
+	top := func() []*ssa.Function {
+		var out []*ssa.Function
+		for _, fn := range p.FuncsIn(pkgPkgRender) {
+			if fn.Parent() == nil && fn.Synthetic == "" && len(fn.Blocks) > 0 {
+				out = append(out, fn)
+			}
+		}
+		return out
+	}
+	variadicOf := func(sig *types.Signature, elem string) bool {
+		if !sig.Variadic() || sig.Params().Len() == 0 {
+			return false
+		}
+		sl, ok := sig.Params().At(sig.Params().Len() - 1).Type().Underlying().(*types.Slice)
+		return ok && namedTypeString(sl.Elem()) == elem
+	}
+	unique := func(cands []*ssa.Function) *ssa.Function {
+		if len(cands) == 1 {
+			return cands[0]
+		}
+		return nil
+	}
+	if r.addObjs == nil {
+		var cands []*ssa.Function
+		for _, fn := range top() {
+			if fn.Name() == "AddObjects" && fn.Signature.Recv() != nil && variadicOf(fn.Signature, pkgUnstr+".Unstructured") {
+				cands = append(cands, fn)
+			}
+		}
+		r.addObjs = unique(cands)
+	}
+	if r.addObjs != nil && r.addObjs.Signature.Recv() != nil {
+		recv := r.addObjs.Signature.Recv().Type()
+		if r.collect == nil {
+			var cands []*ssa.Function
+			for _, fn := range top() {
+				if fn.Name() == "Collect" && fn.Signature.Recv() != nil && types.Identical(fn.Signature.Recv().Type(), recv) {
+					cands = append(cands, fn)
+				}
+			}
+			r.collect = unique(cands)
+		}
+		if r.addOne == nil {
+			seen := map[*ssa.Function]bool{}
+			var cands []*ssa.Function
+			for _, call := range callsIn(r.addObjs) {
+				h := staticCallee(call.Common)
+				if h == nil || seen[h] || h.Signature.Recv() == nil || !types.Identical(h.Signature.Recv().Type(), recv) {
+					continue
+				}
+				if variadicOf(h.Signature, pkgCoreV1+".ObjectSetObject") {
+					seen[h] = true
+					cands = append(cands, h)
+				}
+			}
+			r.addOne = unique(cands)
+		}
+		if r.newColl == nil {
+			var cands []*ssa.Function
+			for _, fn := range top() {
+				if fn.Signature.Recv() == nil && fn.Signature.Results().Len() == 1 && types.Identical(fn.Signature.Results().At(0).Type(), recv) {
+					cands = append(cands, fn)
+				}
+			}
+			r.newColl = unique(cands)
+		}
+	}
+	for _, e := range []struct {
+		fn   *ssa.Function
+		name string
+	}{{r.addObjs, "(phaseCollector).AddObjects"}, {r.addOne, "(phaseCollector).addObjects"}, {r.collect, "(phaseCollector).Collect"}, {r.newColl, "newPhaseCollector"}} {
+		if e.fn == nil {
+			c.AnchorLost(pkgPkgRender + "." + e.name)
+		} else {
+			c.Visit(e.fn)
+		}
+	}
+	return r
+}
+
 func c13r3(c *Ctx) {
 	p := c.P
-	addObjs := c.MustFunc(pkgPkgRender, "(phaseCollector).AddObjects")
-	addOne := c.MustFunc(pkgPkgRender, "(phaseCollector).addObjects")
-	collect := c.MustFunc(pkgPkgRender, "(phaseCollector).Collect")
-	newColl := c.MustFunc(pkgPkgRender, "newPhaseCollector")
+	coll := c13Collector(c)
+	addObjs, addOne, collect, newColl := coll.addObjs, coll.addOne, coll.collect, coll.newColl
 	if addObjs == nil || addOne == nil || collect == nil || newColl == nil {
 		return
 	}
@@ -1178,7 +1320,7 @@ func c13r4(c *Ctx) {
 			byValue[v] = n
 		}
 	}
-	addObjs := c.MustFunc(pkgPkgRender, "(phaseCollector).AddObjects")
+	addObjs := c13Collector(c).addObjs
 	if addObjs == nil {
 		return
 	}
@@ -1229,9 +1371,12 @@ func c13r4(c *Ctx) {
 	}
 	stored := callArgs(setAnn.Common)[0]
 	// stored is phi(annotations, nil) where annotations = object.GetAnnotations(); find the underlying map value
+	// (the stripping may live in an extracted helper that returns the map or nil: values are resolved
+	// through helper results and helper parameters to the map object itself)
 	var base ssa.Value
-	for _, pv := range p.possibleValues(stored) {
-		if isNilConst(stripConv(pv)) {
+	for _, pv := range p.rvValuesX(stored) {
+		pv = stripConv(pv)
+		if isNilConst(pv) {
 			continue
 		}
 		if base != nil && base != pv {
@@ -1239,6 +1384,13 @@ func c13r4(c *Ctx) {
 			break
 		}
 		base = pv
+	}
+	isBase := func(v ssa.Value) bool {
+		if stripConv(v) == base {
+			return true
+		}
+		xs := p.rvValuesX(v)
+		return len(xs) == 1 && stripConv(xs[0]) == base
 	}
 	keys := make([]string, 0, len(read))
 	for k := range read {
@@ -1251,7 +1403,7 @@ func c13r4(c *Ctx) {
 			o.Unknown("cannot resolve the map passed to SetAnnotations (%s)", p.describe(stored))
 			continue
 		}
-		deleted := p.mustPrecede(setAnn.Instr, func(in ssa.Instruction) bool {
+		deleted := p.mustPrecedeX(setAnn.Instr, func(in ssa.Instruction) bool {
 			ci, ok := in.(ssa.CallInstruction)
 			if !ok {
 				return false
@@ -1261,7 +1413,7 @@ func c13r4(c *Ctx) {
 				return false
 			}
 			s, isC := constString(ci.Common().Args[1])
-			return isC && s == k && ci.Common().Args[0] == base
+			return isC && s == k && isBase(ci.Common().Args[0])
 		})
 		if deleted {
 			o.OK("delete(annotations, " + byValue[k] + ") precedes SetAnnotations on every path; read at " + p.IPos(read[k]))
@@ -1274,8 +1426,9 @@ func c13r4(c *Ctx) {
 		o := c.Ob(addObjs, "stripped-object-is-collected", setAnn.Instr, "the object whose annotations were stripped is the object handed to addObjects")
 		recv := callRecv(setAnn.Common)
 		okObj := false
+		addOne := c13Collector(c).addOne
 		for _, call := range callsIn(addObjs) {
-			if calleeName(call.Common) != "addObjects" {
+			if addOne == nil || staticCallee(call.Common) != addOne {
 				continue
 			}
 			elems, ok := sliceElems(callArgs(call.Common)[1])
@@ -1465,12 +1618,19 @@ func c13r5(c *Ctx) {
 						problems = append(problems, "paths are not visited by a unit-step index from the first element")
 					}
 					// the slice indexed must have been sorted before the loop
-					sortedBefore := p.mustPrecede(app, func(in ssa.Instruction) bool {
+					// (the list may be produced — collected and sorted — by an extracted helper)
+					listVals := p.rvValuesX(ia.X)
+					sortedBefore := p.mustPrecedeX(app, func(in ssa.Instruction) bool {
 						ci, ok := in.(ssa.CallInstruction)
 						if !ok || !sortFuncs[calleeID(ci.Common())] || len(ci.Common().Args) == 0 {
 							return false
 						}
-						return p.sameValue(stripConv(ci.Common().Args[0]), ia.X) || c13SameSliceVar(stripConv(ci.Common().Args[0]), ia.X)
+						arg := stripConv(ci.Common().Args[0])
+						if p.sameValue(arg, ia.X) || c13SameSliceVar(arg, ia.X) {
+							return true
+						}
+						argVals := p.rvValuesX(arg)
+						return len(listVals) == 1 && len(argVals) == 1 && stripConv(listVals[0]) == stripConv(argVals[0])
 					})
 					if !sortedBefore {
 						problems = append(problems, "the path list is not sorted before the concatenation loop")
@@ -1530,7 +1690,7 @@ func c13r5(c *Ctx) {
 		o := c.Ob(rost, "objects-to-collector", nil, "RenderObjectSetTemplateSpec passes pkgInstance.Objects unchanged to the collector and the collected phases unchanged to the template")
 		okArg := false
 		for _, call := range callsIn(rost) {
-			if calleeName(call.Common) == "AddObjects" {
+			if addObjs := c13Collector(c).addObjs; addObjs != nil && staticCallee(call.Common) == addObjs {
 				a := callArgs(call.Common)
 				if len(a) == 1 && c13IsFieldLoad(a[0], "Objects") {
 					okArg = true
